@@ -1,4 +1,139 @@
-(* placeholder until C08/Proofs*.v land: nothing is claimed proved yet *)
-From V Require Import C08.Glue.
-Theorem c08_placeholder : True. Proof. exact I. Qed.
-Print Assumptions c08_placeholder.
+(* C08 - Metric series are keyed by attribute-set value; filters and limits lose nothing.
+   Every theorem is about the executable model coq/C08/Model.v (tied to the C++ by the differential run of ./check C08, in which the
+   model replays the iteration orders the implementation used); the cardinality-limit default and the overflow attribute come from
+   Gen/Consts.v, regenerated from /repo on every run.  A table is the list of its entries in iteration order; every place where the
+   code walks a freshly built unordered_map takes the order as an input, and the theorems hold for every such input. *)
+From V Require Import C08.Glue C08.ProofsAttrs C08.ProofsHash C08.ProofsTable C08.ProofsStorage C08.ProofsMeets.
+From Coq Require Import Permutation.
+Local Open Scope Z_scope.
+
+(* ---- "the attribute sets, after the view's attribute filter has removed the keys it does not allow ...": the ordered map the
+   code builds answers, for EVERY key (a whole byte string: embedded NULs, keys that are prefixes of each other), exactly what the
+   measurement says about that key - the value of the last pair with that key if the key is in the allow-list, nothing otherwise *)
+Theorem filter_by_full_key : forall f kvs k,
+  assoc k (mk_attrs f kvs) = kept f kvs k /\
+  (In k (map fst (mk_attrs f kvs)) <-> In k (map fst kvs) /\ match f with FNone => True | FAllow l => In k l end).
+Proof. exact (fun f kvs k => conj (mk_attrs_denotes f kvs k) (filter_by_full_key_lemma f kvs k)). Qed.
+Print Assumptions filter_by_full_key.
+
+(* ---- "... are equal as key-to-value maps": the code's comparison of two ordered maps decides equality of the maps the two
+   measurements denote ([sets_equal], the SPEC: no sorting, no insertion), for measurements without NaN values (one side suffices) *)
+Theorem maps_equal_iff_sets_equal : forall f a b, kvs_nan a = false ->
+  attrs_eqb (mk_attrs f a) (mk_attrs f b) = sets_equal f a b.
+Proof. exact attrs_eqb_iff_sets_equal. Qed.
+Print Assumptions maps_equal_iff_sets_equal.
+
+(* ---- "Two measurements on one instrument contribute to the same series exactly when [they are equal sets]": in every table
+   state t and for every limit, the second measurement is answered with the entry the first one was answered with if the sets are
+   equal; and if it is answered with the same entry then the sets are equal or that entry is the overflow series *)
+Theorem same_series_iff_equal_maps : forall L f a b d t, kvs_nan a = false ->
+  (sets_equal f a b = true ->
+     attrs_eqb (series_key L (mk_attrs f a) t) (series_key L (mk_attrs f b) (record L (mk_attrs f a) d t)) = true) /\
+  (attrs_eqb (series_key L (mk_attrs f a) t) (series_key L (mk_attrs f b) (record L (mk_attrs f a) d t)) = true ->
+     sets_equal f a b = true \/ attrs_eqb (series_key L (mk_attrs f a) t) overflow_attrs = true).
+Proof. exact same_series_iff_equal_sets. Qed.
+Print Assumptions same_series_iff_equal_maps.
+
+(* Full statement without the hypothesis [kvs_nan a = false] is REFUTED by the faithful model (open finding F26): a set holding a NaN
+   double equals itself as a map, the code's comparison says it does not, and two such measurements are reported as two series *)
+Theorem same_series_iff_equal_maps_refuted :
+  sets_equal FNone nan_kvs nan_kvs = true /\ attrs_eqb (mk_attrs FNone nan_kvs) (mk_attrs FNone nan_kvs) = false /\
+  run_ops f26_cfg f26_ops [f26_walk; f26_walk] (init_storage f26_cfg) = [CReport f26_walk] /\
+  storage_clauses true f26_cfg f26_ops [RPoints f26_walk] =
+    fail "same_series_iff_equal_maps:nan_value" ++ fail "same_series_iff_equal_maps:nan_value".
+Proof. exact same_series_refuted_nan. Qed.
+Print Assumptions same_series_iff_equal_maps_refuted.
+
+(* ---- and in every report of every history no attribute set is split over two series: the keys of a reported table are pairwise
+   different under the map comparison (with NaN values too) *)
+Theorem reported_series_distinct : forall c ops walks t, (1 <= c_limit c)%nat ->
+  In (CReport t) (run_ops c ops walks (init_storage c)) -> kdistinct t.
+Proof. exact (fun c ops walks t => reported_series_distinct_lemma c ops walks t). Qed.
+Print Assumptions reported_series_distinct.
+
+(* ---- "the order in which the caller lists the keys, and duplicates resolved last-wins, make no difference" *)
+Theorem order_insensitive_last_wins :
+  (forall f a b, NoDup (map fst a) -> Permutation a b -> mk_attrs f a = mk_attrs f b) /\
+  (forall f l1 x y l2, fst x <> fst y -> mk_attrs f (l1 ++ x :: y :: l2) = mk_attrs f (l1 ++ y :: x :: l2)) /\
+  (forall f l1 k v l2 v' l3, mk_attrs f (l1 ++ (k, v) :: l2 ++ (k, v') :: l3) = mk_attrs f (l1 ++ l2 ++ (k, v') :: l3)) /\
+  (forall f l1 kv l2, allowed f (fst kv) = false -> mk_attrs f (l1 ++ kv :: l2) = mk_attrs f (l1 ++ l2)) /\
+  (forall f a b, (forall k, kept f a k = kept f b k) -> mk_attrs f a = mk_attrs f b).
+Proof.
+  exact (conj permutation_distinct_keys (conj swap_distinct_keys (conj shadowed_pair_irrelevant
+        (conj filtered_pair_irrelevant mk_attrs_ext)))).
+Qed.
+Print Assumptions order_insensitive_last_wins.
+
+(* ---- "and equal sets always hash equally": for ANY std::hash<std::string> and any std::hash<double> that respects operator== of
+   double (+0.0 and -0.0 alike), maps that compare equal have equal GetHashForAttributeMap values - so operator== of
+   FilteredOrderedAttributeMap (cached hash first) is the map comparison - and equal sets of measurements hash equally *)
+Theorem equal_maps_equal_hash : forall (h_str : bytes -> Z) (h_dbl : Z -> Z),
+  (forall a b, dbl_eqb a b = true -> h_dbl a = h_dbl b) ->
+  (forall a b, attrs_eqb a b = true -> hash_attrs h_str h_dbl a = hash_attrs h_str h_dbl b) /\
+  (forall a b, key_eqb h_str h_dbl a b = attrs_eqb a b) /\
+  (forall f a b, kvs_nan a = false -> sets_equal f a b = true ->
+     hash_attrs h_str h_dbl (mk_attrs f a) = hash_attrs h_str h_dbl (mk_attrs f b)).
+Proof.
+  exact (fun h_str h_dbl H => conj (equal_maps_equal_hash_lemma h_str h_dbl H)
+           (conj (key_eqb_is_attrs_eqb h_str h_dbl H) (equal_sets_equal_hash h_str h_dbl H))).
+Qed.
+Print Assumptions equal_maps_equal_hash.
+
+(* ---- "the number of series reported stays within the limit": every report of every history, for every configuration
+   (limit >= 1, any filter, any collectors of either temporality), every number of cycles, every walk order *)
+Theorem series_le_limit_every_cycle : forall c ops walks t, (1 <= c_limit c)%nat ->
+  In (CReport t) (run_ops c ops walks (init_storage c)) -> (length t <= c_limit c)%nat.
+Proof. exact (fun c ops walks t => series_le_limit_lemma c ops walks t). Qed.
+Print Assumptions series_le_limit_every_cycle.
+
+(* ---- "the excess is folded into the single overflow series, so that the total over all reported series still equals everything
+   recorded, for delta and cumulative readers alike".  [results_ok c P Q rs ops hist marks] (C08/ProofsStorage.v) walks the history:
+   each Collect(i) has a result; a report's total is the sum of the collector's window - the measurements since its previous
+   collection for a delta collector, all measurements for a cumulative one - a collection without callback has an empty-sum
+   window, and the run ends early only with a rejected walk order or a crash.  Table level: record and the merge step add exactly
+   the value handed in, whichever entry (the overflow one included) receives it. *)
+Theorem overflow_conserves_total :
+  (forall c ops walks, (1 <= c_limit c)%nat ->
+     results_ok c (fun _ => True) (fun _ => True) (run_ops c ops walks (init_storage c)) ops [] (map (fun _ => O) (c_temps c))) /\
+  (forall L k d t, total (record L k d t) = total t + d) /\
+  (forall L t k d t', merge_in L t (k, d) = Some t' -> total t' = total t + d).
+Proof. exact (conj conservation_lemma (conj record_total merge_in_total)). Qed.
+Print Assumptions overflow_conserves_total.
+
+(* ---- the same run satisfies all of it at once: size, distinct keys, totals *)
+Theorem every_history_ok : forall c ops walks, (1 <= c_limit c)%nat ->
+  results_ok c (P1 (c_limit c)) (fun _ => True) (run_ops c ops walks (init_storage c)) ops [] (map (fun _ => O) (c_temps c)).
+Proof. exact history_ok_all. Qed.
+Print Assumptions every_history_ok.
+
+(* ---- a collection always completes.  Full statement: forall c ops walks, ~ In CCrash (run_ops c ops walks (init_storage c)).
+   REFUTED by the faithful model (open finding F26b): with a NaN attribute value the merge path dereferences the null pointer
+   GetOrSetDefault(const MetricAttributes&) returns.  It holds for every history without NaN attribute values. *)
+Theorem collect_completes_refuted :
+  run_ops f26b_cfg f26b_ops [[(nan_key, 1)]] (init_storage f26b_cfg) = [CCrash] /\
+  storage_clauses true f26b_cfg f26b_ops [RCrash] = fail "collect_completes:nan_value" /\
+  run_hops 5 FNone [HGet 1 nan_kvs 1; HSize] [] [] = [HRNull].
+Proof. exact collect_completes_refuted_nan. Qed.
+Print Assumptions collect_completes_refuted.
+
+Theorem collect_completes_partial : forall c ops walks, (1 <= c_limit c)%nat -> ops_nan_free ops = true ->
+  ~ In CCrash (run_ops c ops walks (init_storage c)).
+Proof. exact nan_free_never_crashes_lemma. Qed.
+Print Assumptions collect_completes_partial.
+
+(* ---- the SPEC checkers that ./check runs on the implementation's observations accept the model's output.
+   Pairs of attribute sets (EQ cases) and directly driven hash maps (HM cases): all clauses.
+   Storage histories (ST / MP cases): the clauses series_le_limit, overflow_conserves_total, duplicate_series, collect_completes
+   ([storage_clauses false]).  Full statement: the same with [storage_clauses true], which adds the two checks that look inside the
+   individual series (every reported set is the set of a recorded measurement or the overflow set; with fewer distinct sets than the
+   limit every series holds exactly the sum of its own measurements).  Those two are not proved of the model (they need a per-series
+   ghost history); they are evaluated on the implementation's reports on every run.  The excluded region [ops_nan_free] is F26. *)
+Theorem model_meets_spec :
+  (forall f a b, kvs_nan a = false -> kvs_nan b = false -> eq_clauses f a b (eq_model f a b) = []) /\
+  (forall L f ops walks, (1 <= L)%nat -> hops_nan_free ops = true -> ~ In HRReject (run_hops L f ops walks []) ->
+     hashmap_clauses L (existsb hop_nan ops) (run_hops L f ops walks []) = []) /\
+  (forall c ops walks, (1 <= c_limit c)%nat -> ops_nan_free ops = true ->
+     ~ In CReject (run_ops c ops walks (init_storage c)) ->
+     storage_clauses false c ops (map robs_of (run_ops c ops walks (init_storage c))) = []).
+Proof. exact (conj eq_meets_spec (conj hashmap_meets_spec storage_meets_spec_partial)). Qed.
+Print Assumptions model_meets_spec.
